@@ -187,6 +187,22 @@ def emptied_first(ctx, b, l, depth=0):
     return False
 
 
+def _straight_after(b, sb, wb):
+    """wb is reached from sb by straight-line code only"""
+    cur = sb
+    for _ in range(8):
+        t = b.blocks[cur]['t']
+        if t['k'] == 'goto':
+            cur = t['t']
+        elif t['k'] in ('call', 'drop', 'assert') and t.get('t') is not None:
+            cur = t['t']
+        else:
+            return False
+        if cur == wb:
+            return True
+    return False
+
+
 class MethodFacts:
     """per method: [(kind, field, bb, idx)] with kind in write (whole field stored), part (store below it / &mut
     borrow / call destination: mutation that also depends on the old value), read"""
@@ -363,14 +379,40 @@ def r10_6(ctx):
                             fw.append((bi, len(b.blocks[bi]['st']), cq))
                         if mf[cq].of(g, ('write', 'part')):
                             callee_sites[bi] = cq
+                # a write of a constant (a flag, an invalid marker) can stand for any number of mutations around it; a
+                # write of a computed value describes one new state of g: it comes after the mutation it belongs to, and
+                # belongs to one mutation only
+                def is_marker(wb, wi):
+                    blk = b.blocks[wb]
+                    if wi >= len(blk['st']):
+                        return False
+                    rv = blk['st'][wi].get('rv') or {}
+                    if rv.get('k') == 'use' and rv['o'].get('k') == 'const':
+                        return True
+                    if rv.get('k') == 'agg' and not rv.get('ops'):
+                        return True
+                    # a local that holds a constant or an empty aggregate
+                    if rv.get('k') == 'use' and rv['o'].get('k') in ('move', 'copy') and not rv['o']['p']['pr']:
+                        ds = [st for bb2 in b.blocks for st in bb2['st'] if st['k'] == 'assign' and st['p']['l'] == rv['o']['p']['l'] and not st['p']['pr']]
+                        return len(ds) == 1 and ((ds[0]['rv'].get('k') == 'use' and ds[0]['rv']['o'].get('k') == 'const') or (ds[0]['rv'].get('k') == 'agg' and not ds[0]['rv'].get('ops')))
+                    return False
                 # a borrow and the store through it in one block are one site
                 blocks_with_site = sorted(set(bi for bi, i in sites))
+                site_idx = {sb: max(i for bi, i in sites if bi == sb) for sb in blocks_with_site}
+                used = set()
                 for sb in blocks_with_site:
                     nsites += 1
                     ok = False
-                    for wb, wi, via in fw:
+                    for wb, wi, via in sorted(fw, key=lambda w: (w[0] != sb, w[0], w[1])):
                         if via is not None and wb in callee_sites and wb != sb:
                             continue      # that write belongs to the callee's own mutation of g
+                        if via is None and not is_marker(wb, wi):
+                            after = (wb == sb and wi > site_idx[sb]) or (wb != sb and (cfg.postdominates(wb, sb) or _straight_after(b, sb, wb)))
+                            if not after or (wb, wi) in used:
+                                continue
+                            used.add((wb, wi))
+                            ok = True
+                            break
                         if wb == sb or cfg.dominates(wb, sb) or cfg.postdominates(wb, sb) or _quiet_without(b, cfg, sb, wb):
                             ok = True
                             break
